@@ -172,7 +172,7 @@ def load_history():
                     return [line.strip() for line in f.readlines()
                             if len(line.strip())>0]
         except Exception as e:
-            print("Failed to load history because: " + str(e), out=sys.stderr)
+            print("Failed to load history because: " + str(e), file=sys.stderr)
     return []
 
 def history_enabled():
@@ -193,7 +193,7 @@ def save_history(history):
                 with open(path, "w") as f:
                     f.write("\n".join(history))
     except Exception as e:
-        print("Failed to save history because: " +  str(e), out=sys.stderr)
+        print("Failed to save history because: " +  str(e), file=sys.stderr)
 
 def execute_interpreter_command(s):
     args = s[len(INTERPRETER_COMMAND_PREFIX):].split()
